@@ -71,9 +71,8 @@ def onReady (s : GState) : GState × String :=
   let simple := simpleTerminals g
   let (oracle, langSize, fix) :=
     if s.exh > 0 && simple && s.terms.size > 0 then
-      let (env, fix) := enumFix g s.exh (6 * s.exh + 2 * g.rules.length + 8) 0 []
-      let set := env.get g.start
-      (some (Std.HashSet.ofList set), set.length, fix)
+      let r := oracleList g s.exh      -- `oracle_sound` is about exactly this set
+      (some (Std.HashSet.ofList r.1), r.1.length, r.2)
     else (none, 0, false)
   let opOK := match s.optable with
     | some t => decide (g.rules = opGrammarRules t)
@@ -123,7 +122,7 @@ def runCase (s : GState) : String :=
               | some m => s!"tree:{m}"
   -- judge on the implementation's outputs
   let w : List Tok := s.toks.map fun i => (s.terms.getD i default).tok
-  let wNoExtra := w.filter fun t => !(extraToks s.g).contains t
+  let wNoExtra := stripExtras s.g w
   let member : Option Bool :=
     match s.oracle with
     | some set => if s.isT && s.toks.length ≤ s.exh then some (set.contains wNoExtra) else none
@@ -149,8 +148,9 @@ def runCase (s : GState) : String :=
     match member with
     | some m => if m == !s.err then "" else s!"membership(member={m},has_error={s.err});"
     | none => ""
+  let rootKind := match vt with | some v => v.kind | none => ""
   let judge := judge ++ (match deriv with
-    | some false => "tree-is-not-a-derivation;"
+    | some false => if rootKind != s.g.start then s!"root-kind-is-not-the-start-rule({rootKind});" else "tree-is-not-a-derivation;"
     | _ => "")
   let judge := judge ++ (match prattMsg with
     | some m => m ++ ";"
